@@ -10,7 +10,9 @@ LEVEL_TEXT = ("Theorems in Coq, for every event sequence / configuration / execu
               "call, nothing panics, submitted calls = completed calls + calls in the open batch as multisets (nobody lost, "
               "nobody called twice), every callback gets ErrShuttingDown, the error of the request its call travelled in, or "
               "the executor's answer at its call's own position in that request; nothing is left waiting after Close or with "
-              "linger 0. (2) write stream: every successful completion pairs the "
+              "linger 0. the same holds with the retry loop of doRequestWithRetries explicit, for every attempt script (any number of "
+              "attempts, any chunking of a read stream, partial delivery before a retriable failure): the answer is that of the "
+              "last attempt only. (2) write stream: every successful completion pairs the "
               "i-th successfully sent request with the i-th response received, for one i -- also when callers abandon "
               "requests that are on the wire (per-request timeout or cancellation: the future keeps its place in the FIFO "
               "and swallows its own late response); every Send returns exactly once; no panic (after the fix; refuted for "
@@ -30,20 +32,20 @@ LEVEL_NOTE = ("Trusted: Coq kernel, extraction (ExtrOcamlBasic), the Go harness 
               "in-memory gRPC stream fakes) and its canonicalisation. Modelled, not verified: the Go scheduler and timers "
               "(which select case fires is an input event; Add and Run's handling of the call are one atomic event, i.e. "
               "Add racing with Close is outside the model), gRPC (assumed: a failed or closed stream keeps failing sends), "
-              "retries inside doRequestWithRetries (the executor of the model is the outcome after retries), protobuf. "
+              "the backoff timing of doRequestWithRetries (the attempts and their outcomes are inputs; a request timeout is the end of the attempt list), protobuf. "
               "Secondary-index range scans are merged by primary key while each shard streams in index order: the "
               "permutation theorem covers them, the sortedness theorem's hypothesis does not hold for them (recorded, "
               "API documents no cross-shard order). Runs in which the linger timer fires where the case has no Tick "
               "are detected and repeated.")
 TRUSTED = ["modelled not verified: goroutine scheduling inside Batcher.Run beyond the event order, time.Timer, gRPC streams "
-           "(in-memory fakes in the harness), backoff retries (seen through the executor), protobuf"]
+           "(in-memory fakes in the harness), backoff timing, protobuf"]
 ASSUMES = ["executor answers: an error or a response with at least one entry per call (otherwise the Go code indexes past the end: modelled Panic, reproduced)",
            "Close() of a batcher is called at most once (batch.Manager removes the batcher before closing it)",
            "calls have the Go type of the batcher they are routed to (clientImpl routes Put/Delete/DeleteRange to write, Get to read batchers)",
            "gRPC: once stream.Send has failed or the stream context is done, later stream.Send calls fail",
            "comparison get: all per-shard answers of one query carry a secondary key or none does"]
 RULE = ("batch: event lists (Call/Tick/Close) x configurations (write/read, linger 0|>0, count limit incl. 0/-1, byte limit with "
-        "exact fits) x executor scripts (ok, error, short, long, retriable), distinct by content; stream: interleavings of "
+        "exact fits) x executor scripts (per request: attempts that stream k answers and fail with a retriable status, then ok / error / short / long), distinct by content; stream: interleavings of "
         "sends (ok/failed), responses, receive errors, per-request context cancellations, closure; merge: 0..8 per-shard streams over a '/'-rich key alphabet, "
         "errors anywhere, duplicates, unsorted streams, non-trivial = 2+ streams; mget: 1..6 shards, all comparison types, "
         "errors/not-found/OK mixes, secondary keys, partial arrivals, random callback order, non-trivial = 2+ shards; "
